@@ -8,6 +8,7 @@ import BV.C01.ChainUnique
 import BV.C01.ChainComplete
 import BV.C01.HeightLemmas
 import BV.C01.ApiLemmas
+import BV.C01.RawLemmas
 import BV.Generated.C01
 import BV.C09.Model
 namespace BV.C01
@@ -506,6 +507,97 @@ theorem bip34_extract_sound (s : List Nat) (h : Int) (hs : extractHeight s = .ok
 example : checkSerializedHeight [3, 0x40, 0x0d, 0x03, 0x51] 200000 = true ∧
     checkSerializedHeight [2, 0x09, 0x00] 9 = false ∧ checkSerializedHeight [4, 0x09, 0x00] 9 = false ∧
     checkSerializedHeight [0x60] 16 = true ∧ checkSerializedHeight [1, 0x10] 16 = false := by decide
+
+/-! ### composition: the description derived from raw bytes through the sibling models (C08, C09, C13, C03, C14) -/
+
+section raw
+open Raw RawLemmas
+
+/-- Every fact of the derived description is the sibling model's function of the decoded raw data: height = length
+    of the ancestor chain, median time past and expected bits = C09 on the ancestor headers, target = C09's
+    compact expansion, hash number = C09 `hashToBig` of C08's block hash, merkle comparison = C13's merkle root of
+    C08's txids, per-transaction facts = fold over C03's utxo set of the block's own ancestors. -/
+theorem raw_facts_are_sibling_specs (n : Net) (now : Int) (anc : List BV.C08.Block) (blk : BV.C08.Block) (len : Nat)
+    (bits : List (List (Bool × Nat))) :
+    (describe n now anc blk len bits).C.height = anc.length ∧
+    (describe n now anc blk len bits).C.prevMTP = BV.C09.calcPastMedianTime (chain09 anc) ∧
+    (describe n now anc blk len bits).C.expectedBits =
+      (BV.C09.calcNextRequiredDifficulty n.pow (chain09 anc) (hdrTime blk.1)).getD 0 ∧
+    (describe n now anc blk len bits).H.target = BV.C09.compactToBig (hdrBits blk.1) ∧
+    (describe n now anc blk len bits).H.hashNum = BV.C09.hashToBig (BV.C08.blockHash blk.1) ∧
+    (describe n now anc blk len bits).B.merkleOk =
+      (hdrMerkle blk.1 == BV.C13.Spec.mroot hashPair zero32 (blk.2.map BV.C08.txid)) ∧
+    (describe n now anc blk len bits).B.txs =
+      txsFacts anc.length (chain09 anc) (BV.C03.Spec.utxoOf ((anc.drop 1).filterMap block03)) blk.2 bits ∧
+    (describe n now anc blk len bits).B.commit = commitStatus blk.2 ∧
+    (describe n now anc blk len bits).B.totalSize = len :=
+  ⟨rfl, rfl, rfl, rfl, rfl, rfl, rfl, rfl, rfl⟩
+
+/-- the deployment gates of the derived description are C14's state of the deployment on the ancestor headers -/
+theorem raw_deployments_are_c14 (n : Net) (now : Int) (anc : List BV.C08.Block) (blk : BV.C08.Block) (len : Nat)
+    (bits : List (List (Bool × Nat))) (hne : anc ≠ []) :
+    (describe n now anc blk len bits).csv = (BV.C14.Spec.state n.vb n.csv (node14 anc) == .active) ∧
+    (describe n now anc blk len bits).segwit = (BV.C14.Spec.state n.vb n.seg (node14 anc) == .active) ∧
+    (describe n now anc blk len bits).taproot = (BV.C14.Spec.state n.vb n.tap (node14 anc) == .active) := by
+  have hl : (1 : Int) ≤ (anc.length : Int) := by
+    cases anc with
+    | nil => exact absurd rfl hne
+    | cons a r => simp only [List.length_cons]; omega
+  have key : ∀ (d : BV.C14.Dep),
+      deployed (if active14 n d anc then (1 : Int) else 0) (anc.length : Int) =
+        (BV.C14.Spec.state n.vb d (node14 anc) == .active) := by
+    intro d
+    unfold deployed active14
+    cases BV.C14.Spec.state n.vb d (node14 anc) == .active
+    · simp
+    · simp [hl]
+  exact ⟨key n.csv, key n.seg, key n.tap⟩
+
+/-- the proof-of-work rules on the derived description are C09's `checkProofOfWork` on C08's header hash -/
+theorem raw_pow_is_c09 (n : Net) (now : Int) (anc : List BV.C08.Block) (blk : BV.C08.Block) (len : Nat)
+    (bits : List (List (Bool × Nat))) :
+    (ruleOk .powTarget (describe n now anc blk len bits) = true ∧
+      ruleOk .powHash (describe n now anc blk len bits) = true) ↔
+    BV.C09.checkProofOfWork (hdrBits blk.1) (BV.C08.blockHash blk.1) n.pow.powLimit = .ok :=
+  pow_rules_are_c09 (describe n now anc blk len bits) (BV.C08.blockHash blk.1) rfl rfl
+
+/-- the sanity stage of the derived description does not read the ancestors -/
+theorem raw_context_free (n : Net) (now : Int) : Lemmas.ContextFree (DRaw n now) := contextFree_raw n now
+
+/-- **The verdict from raw data.**  With the chain machine run on raw blocks (serialized bytes + script oracle
+    pairs) and the rule checks instantiated by `validBlock ∘ deriveD`, the flag a node receives — in ANY two
+    delivery histories — is `validBlock` of the description derived, through the sibling models, from the block's
+    own bytes, the bytes of its own ancestors, the network parameters and the clock, and from nothing else. -/
+theorem validBlock_from_raw (n : Net) (now : Int) (g : Chain.Blk RawBody) (bs₁ bs₂ : List (Chain.Blk RawBody))
+    (n₁ n₂ : Chain.Node RawBody)
+    (h₁ : n₁ ∈ (Chain.run (Lemmas.oracleOf (DRaw n now)) g bs₁).nodes)
+    (h₂ : n₂ ∈ (Chain.run (Lemmas.oracleOf (DRaw n now)) g bs₂).nodes)
+    (hb : n₁.blk = n₂.blk) (ha : n₁.anc = n₂.anc) (hne : n₁.anc ≠ [])
+    (c₁ : (n₁.valid || n₁.failed) = true) (c₂ : (n₂.valid || n₂.failed) = true) :
+    n₁.valid = n₂.valid ∧ n₁.failed = n₂.failed ∧
+      (n₁.valid = true ↔
+        validBlock (deriveD ⟨n, now, (n₁.anc.map (fun a => a.body.1)).reverse, n₁.blk.body.1, n₁.blk.body.2⟩) = .ok ()) :=
+  verdict_depends_only_on_ancestors (DRaw n now) g (contextFree_raw n now) bs₁ bs₂ n₁ n₂ h₁ h₂ hb ha hne c₁ c₂
+
+/-- … and, hash collisions aside, of the block's own bytes alone. -/
+theorem validBlock_from_raw_block (n : Net) (now : Int) (g : Chain.Blk RawBody) (bs₁ bs₂ : List (Chain.Blk RawBody))
+    (hinj : ∀ a ∈ g :: (bs₁ ++ bs₂), ∀ b ∈ g :: (bs₁ ++ bs₂), a.hash = b.hash → a = b)
+    (n₁ n₂ : Chain.Node RawBody)
+    (h₁ : n₁ ∈ (Chain.run (Lemmas.oracleOf (DRaw n now)) g bs₁).nodes)
+    (h₂ : n₂ ∈ (Chain.run (Lemmas.oracleOf (DRaw n now)) g bs₂).nodes)
+    (hb : n₁.blk = n₂.blk) (hne : n₁.anc ≠ [])
+    (c₁ : (n₁.valid || n₁.failed) = true) (c₂ : (n₂.valid || n₂.failed) = true) :
+    n₁.valid = n₂.valid ∧ n₁.failed = n₂.failed ∧
+      (n₁.valid = true ↔ validBlock (DRaw n now n₁.anc n₁.blk) = .ok ()) :=
+  verdict_depends_only_on_block (DRaw n now) g (contextFree_raw n now) bs₁ bs₂ hinj n₁ n₂ h₁ h₂ hb hne c₁ c₂
+
+/-- every block on the active chain of the raw machine satisfies every rule on the description derived from
+    its own bytes and the bytes of the blocks below it -/
+theorem active_sound_raw (n : Net) (now : Int) (g : Chain.Blk RawBody) (bs : List (Chain.Blk RawBody)) :
+    Lemmas.AllValid (DRaw n now) g (Chain.run (Lemmas.oracleOf (DRaw n now)) g bs).best :=
+  active_sound (DRaw n now) g (contextFree_raw n now) bs
+
+end raw
 
 /-! ### non-vacuity -/
 
